@@ -93,6 +93,20 @@ class Ctx:
           self.broken.append(dict(kind='axiom', name=n, detail=v))
         if v == 'NOT-REPORTED':
           self.broken.append(dict(kind='assumptions-missing', name=n, detail='no Print Assumptions output'))
+      if self.thorough and not self.meta.get('skip_coqchk'):
+        t1 = time.time()
+        okc, res = coqrun.coqchk(self.prop)
+        self.log('coqchk -o %s in %.1fs: %s' % ('ok' if okc else 'FAILED', time.time() - t1, res))
+        self.extra['coqchk'] = res
+        if not okc:
+          self.broken.append(dict(kind='coqchk', name='Properties/%s.vo' % self.prop, detail=str(res)))
+        else:
+          self.trusted.append('coqchk -o (independent checker) re-checked Properties/%s.vo and its dependencies: axioms = %s' % (self.prop, res['axioms']))
+          for k in ('type_in_type', 'unsafe_fixpoints', 'assumed_positivity'):
+            if res[k] != '<none>':
+              self.broken.append(dict(kind='coqchk', name=k, detail=res[k]))
+          if res['axioms'] != '<none>' and not all(any(a in ax for a in allowed) for ax in res['axioms'].split(' ') if ax):
+            self.broken.append(dict(kind='coqchk-axioms', name='Properties/%s.vo' % self.prop, detail=res['axioms']))
     else:
       err = coqrun.first_error(log)
       failed = coqrun.failed_files(log)
